@@ -1,6 +1,7 @@
 (* C27 - Coverage aggregation does not depend on test completion order.
    This file holds only the statement, the property theorem and its non-vacuity examples. *)
-From PlzV Require Import Base.Harness Model.C27 Proof.C27.
+From Coq Require Import String.
+From PlzV Require Import Base.Harness Model.C27 Proof.C27 Gen.CoverageStates Model.C27_states Proof.C27_states.
 From Coq Require Import Permutation.
 
 Definition C27_statement : Prop :=
@@ -49,3 +50,51 @@ Example C27_nonvacuous_tests :
   /\ tlookup (s "//p:t1") (fst (aggregate_all_t [r2; r1])) = Some (snd r1)
   /\ lookup (s "a.go") (snd (aggregate_all_t [r2; r1])) = [3; 3; 2; 1]%N.
 Proof. cbv zeta. split; [|vm_compute; split; reflexivity]. repeat constructor; cbn; intuition discriminate. Qed.
+
+(* ---- Where the merged coverage lives (Model/C27_states.v): the overall report is BuildState.Coverage, the state
+   is copied for every subrepo / architecture, and a flaky target is run several times.  `world0`, the
+   statements of Aggregate and `flake_combine` are regenerated from the source (Gen/CoverageStates.v). ---- *)
+Definition C27_states_statement : Prop :=
+  (* any history: copies of any state made at any time, runs logged on any copy in any order.  Nothing panics
+     and EVERY state reports the monoid fold of all the runs logged anywhere *)
+  (forall evs, valid 1 evs ->
+     exists w, run evs world0 = Some w
+               /\ forall st, st < length (w_states w) -> files_of st w = aggregate_all (map snd (logged evs)))
+  (* hence order independence and best state hold for the aliased accumulators too *)
+  /\ (forall evs evs' w w', valid 1 evs -> valid 1 evs' -> Permutation (logged evs) (logged evs') ->
+        run evs world0 = Some w -> run evs' world0 = Some w' ->
+        forall st st' f, st < length (w_states w) -> st' < length (w_states w') ->
+          lookup f (files_of st w) = lookup f (files_of st' w'))
+  /\ (forall evs w st f i, valid 1 evs -> run evs world0 = Some w -> st < length (w_states w) ->
+        nth i (lookup f (files_of st w)) 0%N = max_over f i (map snd (logged evs)))
+  (* a flaky target: its coverage is the merge of all the attempts that ran, whichever attempt covered a line *)
+  /\ (forall n atts f, lookup f (snd (flake_run flake_combine n atts)) = contribs f (map snd (executed n atts)))
+  /\ (forall n atts f i,
+        nth i (lookup f (snd (flake_run flake_combine n atts))) 0%N = max_over f i (map snd (executed n atts)))
+  /\ (forall n atts n' atts' f, Permutation (executed n atts) (executed n' atts') ->
+        lookup f (snd (flake_run flake_combine n atts)) = lookup f (snd (flake_run flake_combine n' atts')))
+  (* end to end: logged on whatever copy after whatever history, it reaches every state *)
+  /\ (forall evs n atts st0 w st f i,
+        valid 1 (evs ++ [ELog st0 (flake_run flake_combine n atts)]) ->
+        run (evs ++ [ELog st0 (flake_run flake_combine n atts)]) world0 = Some w -> st < length (w_states w) ->
+        nth i (lookup f (files_of st w)) 0%N
+        = N.max (max_over f i (map snd (logged evs))) (max_over f i (map snd (executed n atts)))).
+
+Theorem C27_states_full : C27_states_statement.
+Proof.
+  exact (conj copies_share_files (conj copies_order_free (conj copies_best
+        (conj flake_run_files (conj flake_run_best (conj flake_run_order_free flake_reaches_every_state)))))).
+Qed.
+Print Assumptions C27_states_full.
+
+(* Non-vacuity: a subrepo state made before any result; a run logged on it and one on the root, both orders;
+   a flaky target whose failing first attempt covers what the passing second one does not. *)
+Example C27_states_nonvacuous :
+  let r1 := ([(s "//p:t1", [(s "a.go", [3; 2; 0])])], [(s "a.go", [3; 2; 0])])%N in
+  let r2 := ([(s "///sub//p:t2", [(s "a.go", [2; 3; 2; 1])])], [(s "a.go", [2; 3; 2; 1])])%N in
+  valid 1 [ECopy 0; ELog 1 r2; ELog 0 r1]
+  /\ option_map (fun w => lookup (s "a.go") (files_of 0 w)) (run [ECopy 0; ELog 1 r2; ELog 0 r1] world0) = Some [3; 3; 2; 1]%N
+  /\ option_map (fun w => lookup (s "a.go") (files_of 1 w)) (run [ECopy 0; ELog 0 r1; ELog 1 r2] world0) = Some [3; 3; 2; 1]%N
+  /\ lookup (s "a.go") (snd (flake_run flake_combine 2 [(false, r1); (true, r2)])) = [3; 3; 2; 1]%N
+  /\ executed 3 [(false, r1); (true, r2); (true, r1)] = [r1; r2].
+Proof. cbv zeta. split; [cbn; repeat constructor|]. repeat split; vm_compute; reflexivity. Qed.
